@@ -141,17 +141,17 @@ class Ctx:
             ms = re.findall(r"The number of states generated: (\d+)", out)
             g = int(ms[-1]) if ms else 0
             res["generated"], res["distinct"] = g, g
-        res["violated"] = bool(re.search(r"Error: Invariant .* is violated|Error: Action property .* is violated|is violated", out))
+        res["violated"] = bool(re.search(r"Error: Invariant .* is violated|Error: Action property .* is violated|is violated|Error: The invariant of \S+ is equal to FALSE", out))
         res["violated_name"] = (re.findall(r"Error: (?:Invariant|Action property) (\S+) is violated", out) or [None])[0]
         finished = "Model checking completed" in out or "Finished in" in out or (simulate and "states checked" in out)
         res["post_false"] = re.search(r"Error: Postcondition .* is false", out) is not None
-        hard_error = re.search(r"Error: (?!Invariant|Action property|The behavior up to|Postcondition)", out) is not None and not res["violated"]
+        hard_error = re.search(r"Error: (?!Invariant|Action property|The behavior up to|Postcondition|The invariant of)", out) is not None and not res["violated"]
         if "Assumption" in out and "is false" in out:
             res["assume_false"] = True
             hard_error = False
         else:
             res["assume_false"] = False
-        if hard_error or (p.returncode not in (0, 10, 12, 13) and not res["violated"] and not res["assume_false"] and not res["post_false"]):
+        if hard_error or (p.returncode not in (0, 10, 12, 13, 151) and not res["violated"] and not res["assume_false"] and not res["post_false"]):
             sys.stderr.write(out[-4000:])
             raise MachineryError("TLC failed on %s/%s (rc=%d)" % (module, cfg, p.returncode))
         res["ok"] = not res["violated"] and not res["assume_false"] and not res["post_false"]
